@@ -34,7 +34,10 @@ def build_pool(w: K.World, R, n_distinct: int = 300):
     fn_flags = [0, F.IGNORECASE, F.DOTMATCH, F.EXTMATCH, F.EXTMATCH | F.NEGATE, F.BRACE | F.SPLIT, F.CASE, F.FORCEWIN,
                 F.EXTMATCH | F.DOTMATCH | F.IGNORECASE]
     gl_flags = [0, G.IGNORECASE, G.DOTGLOB, G.EXTGLOB, G.GLOBSTAR, G.GLOBSTAR | G.DOTGLOB, G.BRACE | G.SPLIT, G.MATCHBASE,
-                G.GLOBSTAR | G.EXTGLOB | G.NEGATE, G.NODIR, G.FORCEWIN]
+                G.GLOBSTAR | G.EXTGLOB | G.NEGATE, G.NODIR, G.FORCEWIN,
+                # the internal capture / follow switches depend on REALPATH, _TRANSLATE, FOLLOW (added after seeded C19a)
+                G.REALPATH | G.MATCHBASE, G.REALPATH | G.GLOBSTAR, G.REALPATH | G.MATCHBASE | G.GLOBSTARLONG | G.FOLLOW,
+                G.REALPATH | G.GLOBSTAR | G.FOLLOW]
     for p in BASE:
         for fl in fn_flags:
             for api in ('fnmatch.fnmatch', 'fnmatch.translate', 'fnmatch.filter', 'fnmatch.compile'):
@@ -48,6 +51,12 @@ def build_pool(w: K.World, R, n_distinct: int = 300):
         pool.append(dict(api='fnmatch.fnmatch', pats=[f'p{i}*'], flags=0, isb=False))
         if i % 3 == 0:
             pool.append(dict(api='glob.globmatch', pats=[f'p{i}*', f'!p{i}x'], flags=G.NEGATE, isb=bool(i % 2)))
+    for p in ('*.txt', 'a*', '**/a', '**', 'd/*', '*'):       # REALPATH matching on the fixed tree, also through its link
+        for fl in (G.REALPATH | G.MATCHBASE, G.REALPATH | G.GLOBSTAR, G.REALPATH | G.GLOBSTAR | G.FOLLOW, G.REALPATH | G.MATCHBASE | G.GLOBSTARLONG,
+                   G.REALPATH):
+            for api in ('glob.globmatch-tree', 'glob.globfilter-tree', 'glob.compile-tree', 'pathlib.match-tree'):
+                pool.append(dict(api=api, pats=[p], flags=fl, isb=False))
+            pool.append(dict(api='glob.translate', pats=[p], flags=fl, isb=False))
     for p in ('*', '**', 'd/*', '*.txt', '**/a*'):      # globbing calls on a fixed tree
         for fl in (0, G.GLOBSTAR, G.GLOBSTAR | G.DOTGLOB, G.IGNORECASE):
             pool.append(dict(api='glob.glob-tree', pats=[p], flags=fl, isb=False))
@@ -59,6 +68,36 @@ def make_tree(root: str) -> None:
     os.makedirs(os.path.join(root, 'd', 'e'))
     for f in ('a', 'a.txt', '.h', 'd/a', 'd/a.txt', 'd/e/a', 'B.TXT'):
         open(os.path.join(root, f), 'w').close()
+    os.symlink('d', os.path.join(root, 'lnk'))
+
+
+TREE_NAMES = ['a', 'a.txt', 'd/a', 'd/a.txt', 'd/e/a', 'lnk/a', 'lnk/a.txt', 'lnk/e/a', 'd', 'lnk', 'nope', 'B.TXT', '.h']
+
+
+def _tree_call(w, c: dict, tree: str):
+    G, P = w.G, w.P
+    a, ps, fl = c['api'], c['pats'], c['flags']
+    try:
+        if a == 'glob.globmatch-tree':
+            return {'kind': 'ok', 'bits': ''.join('1' if G.globmatch(n, ps, flags=fl, root_dir=tree) else '0' for n in TREE_NAMES)}
+        if a == 'glob.globfilter-tree':
+            r = G.globfilter(TREE_NAMES, ps, flags=fl, root_dir=tree)
+            return {'kind': 'ok', 'bits': ''.join('1' if n in r else '0' for n in TREE_NAMES)}
+        if a == 'glob.compile-tree':
+            m = G.compile(ps, flags=fl)
+            return {'kind': 'ok', 'bits': ''.join('1' if m.match(n, root_dir=tree) else '0' for n in TREE_NAMES),
+                    'pos': [x.pattern for x in m._matcher._include]}
+        if a == 'pathlib.match-tree':
+            old = os.getcwd()
+            os.chdir(tree)
+            try:
+                pfl = fl & ~(G.MATCHBASE)
+                return {'kind': 'ok', 'bits': ''.join('1' if P.Path(n).match(ps, flags=pfl) else '0' for n in TREE_NAMES)}
+            finally:
+                os.chdir(old)
+    except Exception as e:  # noqa: BLE001
+        return {'kind': 'exc:' + type(e).__name__}
+    return {'kind': 'bad-api'}
 
 
 def evaluate(w: K.World, c: dict, tree: str):
@@ -68,6 +107,8 @@ def evaluate(w: K.World, c: dict, tree: str):
             return {'kind': 'ok', 'files': sorted(w.G.glob(c['pats'], flags=c['flags'], root_dir=tree))}
         except Exception as e:  # noqa: BLE001
             return {'kind': 'exc:' + type(e).__name__}
+    if c['api'].endswith('-tree'):
+        return _tree_call(w, c, tree)
     api = K.API_BY_NAME[c['api']]
     r = w.call(api, c['pats'], None, c['flags'], 1000, c['isb'], NAMES)
     return {'kind': r['kind'], 'pos': r.get('pos'), 'neg': r.get('neg'), 'bits': r.get('bits')}
@@ -102,6 +143,71 @@ for c in calls:
 w.close()
 json.dump(out, open(sys.argv[4], 'w'))
 '''
+
+
+ISOLATED = r'''
+import json, os, sys
+sys.path.insert(0, sys.argv[1])
+calls = json.load(open(sys.argv[2]))
+out = {}
+for c in calls:                      # one forked child per call: wcmatch is imported in the child only
+    r, wfd = os.pipe()
+    pid = os.fork()
+    if pid == 0:
+        os.close(r)
+        try:
+            import common, k4_lists as K, k9_cache as K9
+            w = K.World()
+            res = K9.evaluate(w, c, sys.argv[3])
+            w.close()
+        except BaseException as e:
+            res = {'kind': 'child-exc:' + type(e).__name__ + ':' + str(e)[:100]}
+        os.write(wfd, json.dumps(res).encode())
+        os._exit(0)
+    os.close(wfd)
+    data = b''
+    while True:
+        b = os.read(r, 65536)
+        if not b:
+            break
+        data += b
+    os.close(r)
+    os.waitpid(pid, 0)
+    out[json.dumps([c['api'], c['pats'], c['flags'], c['isb']])] = json.loads(data or b'{"kind": "child-died"}')
+assert 'wcmatch' not in sys.modules
+json.dump(out, open(sys.argv[4], 'w'))
+'''
+
+
+def isolated_interpreters(calls, tree: str, shards: int = 8) -> dict:
+    """every call in its OWN fresh interpreter state (a forked child of a process that never imported
+    wcmatch): no call history at all, not even the one a single fresh interpreter accumulates"""
+    d = tempfile.mkdtemp(prefix='k9i-', dir='/tmp')
+    try:
+        seen, uniq = set(), []
+        for c in calls:
+            if key_of(c) not in seen:
+                seen.add(key_of(c))
+                uniq.append(c)
+        procs = []
+        for i in range(shards):
+            part = uniq[i::shards]
+            if not part:
+                continue
+            inp, outp = os.path.join(d, f'in{i}.json'), os.path.join(d, f'out{i}.json')
+            json.dump(part, open(inp, 'w'))
+            procs.append((subprocess.Popen([common.PY, '-c', ISOLATED, os.path.dirname(os.path.abspath(__file__)), inp, tree, outp],
+                                           stdout=subprocess.PIPE, stderr=subprocess.PIPE, text=True,
+                                           env={**os.environ, 'WCMATCH_REPO': common.REPO}), outp))
+        res: dict = {}
+        for pr, outp in procs:
+            _o, e = pr.communicate(timeout=900)
+            if pr.returncode != 0:
+                raise RuntimeError('isolated interpreter shard failed: ' + e[-500:])
+            res.update(json.load(open(outp)))
+        return res
+    finally:
+        shutil.rmtree(d, ignore_errors=True)
 
 
 def fresh_interpreter(calls, tree: str) -> dict:
@@ -162,6 +268,10 @@ def evaluate_threadsafe(w: K.World, c: dict, tree: str):
         a = c['api']
         if a == 'glob.glob-tree':
             return {'kind': 'ok', 'files': sorted(G.glob(c['pats'], flags=fl, root_dir=tree))}
+        if a == 'pathlib.match-tree':
+            return {'kind': 'skip-threads(chdir)'}
+        if a.endswith('-tree'):
+            return _tree_call(w, c, tree)
         mod = F if a.startswith('fnmatch') else G
         out = {'kind': 'ok', 'pos': None, 'neg': None, 'bits': None}
         if a.endswith('.translate'):
@@ -229,7 +339,7 @@ def object_checks(w: K.World, R, n: int, report):
     for p in BASE[:12]:
         for fl in (0, F.IGNORECASE, F.DOTMATCH, F.EXTMATCH):
             specs.append(('fnmatch', [p], fl))
-        for fl in (0, G.GLOBSTAR, G.DOTGLOB):
+        for fl in (0, G.GLOBSTAR, G.DOTGLOB, G.GLOBSTAR | G.FOLLOW, G.GLOBSTAR | G.REALPATH | G.FOLLOW, G.REALPATH | G.MATCHBASE):
             specs.append(('glob', [p, '!b*'], fl | G.NEGATE))
     R.shuffle(specs)
     specs = specs[:n]
